@@ -31,6 +31,9 @@ enum Item {
     Close,
     /// `h` (TCP only)
     Hold,
+    /// `b` (TCP only, first item of the first entry): the server host drops the SYNs — the listener's
+    /// accept queue is kept full and nothing is accepted for the rest of the line
+    BlackHole,
 }
 
 type Script = Vec<Vec<Item>>;
@@ -73,6 +76,7 @@ fn parse_item(s: &str) -> Option<Item> {
     match s {
         "c" => return Some(Item::Close),
         "h" => return Some(Item::Hold),
+        "b" => return Some(Item::BlackHole),
         "z" => return Some(Item::Zero),
         _ => {}
     }
@@ -211,6 +215,8 @@ struct State {
 
 struct Shared {
     stop: AtomicBool,
+    /// 0 = normal, 1 = black hole requested, 2 = established, 3 = could not be established
+    blackhole: std::sync::atomic::AtomicU8,
     st: Mutex<State>,
 }
 
@@ -304,7 +310,7 @@ fn run_udp_items(
                     return;
                 }
             }
-            Item::Close | Item::Hold => {}
+            Item::Close | Item::Hold | Item::BlackHole => {}
         }
     }
 }
@@ -477,7 +483,7 @@ fn handle_conn(sh: Arc<Shared>, mut s: TcpStream, epoch: usize, idx: usize, item
                 let _ = s.shutdown(Shutdown::Both);
                 return;
             }
-            Item::Hold => {
+            Item::Hold | Item::BlackHole => {
                 if wait_client_close(&sh, &mut s, epoch, idx, Duration::from_secs(3)) {
                     return;
                 }
@@ -489,9 +495,33 @@ fn handle_conn(sh: Arc<Shared>, mut s: TcpStream, epoch: usize, idx: usize, item
 
 fn tcp_thread(sh: Arc<Shared>, l: TcpListener) {
     let _ = l.set_nonblocking(true);
+    let mut parked: Vec<TcpStream> = Vec::new();
     loop {
         if sh.stop.load(Ordering::SeqCst) {
             break;
+        }
+        match sh.blackhole.load(Ordering::SeqCst) {
+            1 => {
+                // shrink the accept queue to its minimum, fill it, and check that a further
+                // connection attempt really gets no answer
+                let addr = l.local_addr().unwrap();
+                unsafe {
+                    libc::listen(l.as_raw_fd(), 0);
+                }
+                for _ in 0..2 {
+                    if let Ok(s) = TcpStream::connect_timeout(&addr, Duration::from_millis(200)) {
+                        parked.push(s);
+                    }
+                }
+                let real = TcpStream::connect_timeout(&addr, Duration::from_millis(250)).is_err();
+                sh.blackhole.store(if real { 2 } else { 3 }, Ordering::SeqCst);
+                continue;
+            }
+            2 | 3 => {
+                std::thread::sleep(Duration::from_millis(5));
+                continue;
+            }
+            _ => {}
         }
         match l.accept() {
             Ok((s, _)) => {
@@ -532,6 +562,7 @@ impl Server {
         u.set_read_timeout(Some(Duration::from_millis(20))).unwrap();
         let sh = Arc::new(Shared {
             stop: AtomicBool::new(false),
+            blackhole: std::sync::atomic::AtomicU8::new(0),
             st: Mutex::new(State {
                 epoch: 0,
                 q_start: Instant::now(),
@@ -858,6 +889,20 @@ pub fn eval(toks: &[&str]) -> String {
     }
 
     let srv = Server::start();
+    // a line whose first TCP script starts with `b` runs against a host that drops SYNs
+    let wants_blackhole = qs.iter().any(|q| matches!(q.tcp.first().and_then(|e| e.first()), Some(Item::BlackHole)));
+    if wants_blackhole {
+        srv.sh.blackhole.store(1, Ordering::SeqCst);
+        let t0 = Instant::now();
+        while srv.sh.blackhole.load(Ordering::SeqCst) == 1 && t0.elapsed() < Duration::from_secs(3) {
+            std::thread::sleep(Duration::from_millis(2));
+        }
+        if srv.sh.blackhole.load(Ordering::SeqCst) != 2 {
+            // this environment does not let the accept queue overflow silently: the case says nothing
+            drop(srv);
+            return "blackhole-unavailable".into();
+        }
+    }
     let cfg = build_cfg(&hdr, srv.addr);
     let groups: Vec<String> = match hdr.rt.as_str() {
         "std" => history!(sync, rsdns::clients::std::Client, (), cfg, &qs, &srv),
@@ -996,8 +1041,18 @@ fn simple_qname(r: &mut Rng) -> String {
 }
 
 fn invalid_qname(r: &mut Rng) -> String {
-    match r.below(11) {
+    match r.below(13) {
         0 => String::new(),
+        11 | 12 => {
+            // an otherwise valid name with white space in front of it or behind it
+            let base = plain_qname(r);
+            let ws = *r.pick(&[" ", "\n", "\t", "\r\n", "\u{3000}", "\u{a0}", "  "]);
+            match r.below(3) {
+                0 => format!("{}{}", ws, base),
+                1 => format!("{}{}", base, ws),
+                _ => format!("{}{}{}", ws, base, ws),
+            }
+        }
         1 => r.pick(&["a..b", "..", ".a", "a..", "a.b..", "x..y.z"]).to_string(),
         2 => {
             let a = valid_label(r, 64);
@@ -1058,6 +1113,17 @@ fn enc_name(name: &str, flip_case: bool) -> Vec<u8> {
     }
     out.push(0);
     out
+}
+
+/// a decoy name must be another name on the wire as well (labels are cut at 63 octets by `enc_name`,
+/// case does not count): otherwise the "decoy" is the asked question
+fn other_name(candidate: String, asked: &str) -> String {
+    let (a, b) = (enc_name(&candidate, false), enc_name(asked, false));
+    if a.eq_ignore_ascii_case(&b) {
+        "not-the-asked-name.invalid".to_string()
+    } else {
+        candidate
+    }
 }
 
 #[derive(Clone)]
@@ -1172,21 +1238,29 @@ fn decoy_tc(r: &mut Rng, q: &Qd, buf: usize, tc4: u64) -> String {
                 String::from_utf8(b).unwrap()
             };
             let o = Qd {
-                qname: other,
+                qname: other_name(other, &q.qname),
                 ..q.clone()
             };
             format!("IIII{}", hx(&msg_tail(fl, 1, 0, &o.question(false), &[])))
         }
         4 => {
             let o = Qd {
-                qtype: if r.chance(1, 2) { q.qtype ^ 1 } else { q.qtype.wrapping_add(256) },
+                qtype: match r.below(3) {
+                    0 => q.qtype ^ 1,
+                    1 => q.qtype.wrapping_add(256),
+                    _ => q.qtype ^ 0x8000,
+                },
                 ..q.clone()
             };
             format!("IIII{}", hx(&msg_tail(fl, 1, 0, &o.question(false), &[])))
         }
         5 => {
             let o = Qd {
-                qclass: if r.chance(1, 2) { q.qclass ^ 1 } else { q.qclass.wrapping_add(256) },
+                qclass: match r.below(3) {
+                    0 => q.qclass ^ 1,
+                    1 => q.qclass.wrapping_add(256),
+                    _ => q.qclass ^ 0x8000,
+                },
                 ..q.clone()
             };
             format!("IIII{}", hx(&msg_tail(fl, 1, 0, &o.question(false), &[])))
@@ -1261,7 +1335,7 @@ fn decoy_tc(r: &mut Rng, q: &Qd, buf: usize, tc4: u64) -> String {
                 _ => format!("{}.attacker.net", base),
             };
             let o = Qd {
-                qname: other,
+                qname: other_name(other, &q.qname),
                 ..q.clone()
             };
             format!("IIII{}", hx(&msg_tail(fl, 1, 0, &o.question(false), &[])))
@@ -1277,7 +1351,7 @@ fn decoy_tc(r: &mut Rng, q: &Qd, buf: usize, tc4: u64) -> String {
                 }
             };
             let o = Qd {
-                qname: other,
+                qname: other_name(other, &q.qname),
                 ..q.clone()
             };
             format!("IIII{}", hx(&msg_tail(fl, 1, 0, &o.question(false), &[])))
@@ -1434,7 +1508,11 @@ fn plain_hdr(r: &mut Rng, index: u64, strat: &'static str) -> GHdr {
 
 fn plain_q(r: &mut Rng) -> Qd {
     Qd {
-        qname: if r.chance(1, 8) { plain_qname(r) } else { simple_qname(r) },
+        qname: match r.below(16) {
+            0 => ".".to_string(),
+            1 | 2 => plain_qname(r),
+            _ => simple_qname(r),
+        },
         // data types, QTYPE-only codes (IXFR 251, AXFR 252, ANY 255), OPT's code and the ends of the range
         qtype: *r.pick(&[1u16, 1, 1, 2, 5, 15, 16, 28, 255, 252, 251, 41, 0, 65535]),
         qclass: *r.pick(&[1u16, 1, 1, 3, 255]),
@@ -1737,7 +1815,10 @@ fn gen_c15(r: &mut Rng, index: u64) -> String {
     } else if tcp_case {
         let tail = msg_tail(0x8180, 1, 0, &q.question(false), &[]);
         let framed = tcp_framed("IIII", &tail);
-        tcp.push(match r.below(6) {
+        tcp.push(match r.below(7) {
+            // the server host drops the SYNs (full accept queue): the connect phase itself must be
+            // bounded by what is left of the lifetime
+            6 => vec!["b".to_string()],
             4 | 5 => {
                 // slow drip: the prefix at once, then one byte of the body every `gap` ms — every
                 // single read makes progress, the whole answer takes far longer than the lifetime.
@@ -1851,7 +1932,56 @@ fn gen_c15(r: &mut Rng, index: u64) -> String {
 /// question) in front of the real response; on async runtimes `drop=<ms>` against a silent server
 /// (the abandoned query's socket is reused by the next Q). The last Q is always a plain answered
 /// query, so that whatever an earlier Q left behind shows up in its result.
+/// c16, special history: a query that times out, then a query whose first transmission is not
+/// answered while the late answers to the FIRST query arrive one millisecond apart across the expiry
+/// of that attempt; the retransmission is answered. A fresh client would get that answer too.
+fn gen_c16_late_across_deadline(r: &mut Rng, index: u64) -> String {
+    let strat = *r.pick(&["udp", "notcp"]);
+    let cfgbuf = *r.pick(&[512usize, 1232]);
+    let (qt, lt) = (100u64, 400u64);
+    let h = GHdr {
+        rt: rt_of(index),
+        rd: 1,
+        edns: "off".to_string(),
+        strat,
+        cfgbuf,
+        qt: Some(qt),
+        lt,
+    };
+    let q1 = plain_q(r);
+    let mut q2 = plain_q(r);
+    while q2.qname.eq_ignore_ascii_case(&q1.qname) {
+        q2 = plain_q(r);
+    }
+    let late = format!("PPPP{}", hx(&msg_tail(0x8180, 1, 0, &q1.question(false), &[])));
+    let mut e0: Vec<String> = vec![format!("p{}", qt - 12)];
+    for _ in 0..24 {
+        e0.push(late.clone());
+        e0.push("p1".to_string());
+    }
+    let api2 = if r.chance(1, 2) { "rrset" } else { "raw" };
+    if api2 == "rrset" {
+        q2.qtype = 1;
+        q2.qclass = 1;
+    }
+    let ans = a_records(r, 1);
+    let answer = format!("IIII{}", hx(&msg_tail(0x8180, 1, 1, &q2.question(false), &ans)));
+    let q3 = plain_q(r);
+    let last = matching(&q3);
+    line(
+        &h,
+        &[
+            GQ { api: "raw", q: q1, buf: 512, drop: None, udp: vec![], tcp: vec![] },
+            GQ { api: api2, q: q2, buf: 512, drop: None, udp: vec![e0, vec![answer]], tcp: vec![] },
+            GQ { api: "raw", q: q3, buf: 512, drop: None, udp: vec![vec![last]], tcp: vec![] },
+        ],
+    )
+}
+
 fn gen_c16(r: &mut Rng, index: u64) -> String {
+    if r.chance(1, 10) {
+        return gen_c16_late_across_deadline(r, index);
+    }
     let rt = rt_of(index);
     let strat = *r.pick(&["udp", "udp", "udp", "udp", "tcp", "tcp", "notcp"]);
     let cfgbuf = *r.pick(&[512usize, 1232]);
